@@ -199,7 +199,7 @@ where
             (v.try_extend_from_slice_copy(&src[..m]), n + m)
         }
         1 => {
-            kani::assume(m <= 8);
+            kani::assume(m <= 6);
             (v.try_resize(m, vals[5]), m)
         }
         _ => {
@@ -519,10 +519,10 @@ h!(bvec_reserve_up1_newest, 3, one_reserve::<S<1, true>, 3, 0>());
 h!(bvec_reserve_down1_newest, 3, one_reserve::<S<1, false>, 3, 0>());
 h!(bvec_reserve_up4_blocked, 3, one_reserve::<S<4, true>, 2, 1>());
 h!(bvec_extend_up1_newest, 3, one_extend::<S<1, true>, 4, 0, 0>());
-h!(bvec_resize_up1_newest, 3, one_extend::<S<1, true>, 4, 0, 1>());
+h!(bvec_resize_up1_newest, 8, one_extend::<S<1, true>, 4, 0, 1>());
 h!(bvec_append_up1_newest, 3, one_extend::<S<1, true>, 4, 0, 2>());
 h!(bvec_extend_down1_blocked, 3, one_extend::<S<1, false>, 2, 1, 0>());
-h!(bvec_resize_down1_blocked, 3, one_extend::<S<1, false>, 2, 1, 1>());
+h!(bvec_resize_down1_blocked, 8, one_extend::<S<1, false>, 2, 1, 1>());
 h!(bvec_shrink_up1_newest, 5, one_shrink::<S<1, true>, 4, 0>());
 h!(bvec_shrink_down8_newest, 5, one_shrink::<S<8, false>, 7, 0>());
 h!(bvec_shrink_up4_newest, 5, one_shrink::<S<4, true>, 7, 0>());
